@@ -35,6 +35,42 @@ impl Shrinker {
         e.viols.iter().any(|v| v.property == self.target.property && clause_class(&v.clause) == clause_class(&self.target.clause))
     }
 
+    /// Like `fails`, but when the explicit schedule no longer produces the violation on the
+    /// edited world (dropping ops shifts every later decision point), re-search a handful of
+    /// seeded schedules for the candidate and adopt the recorded trace of one that does.
+    fn fails_resched(&mut self, w: &World, s: &[Segment]) -> Option<Vec<Segment>> {
+        if self.fails(w, s) {
+            return Some(s.to_vec());
+        }
+        if w.threads.len() < 2 || s.is_empty() {
+            return None;
+        }
+        let strategies = [
+            crate::sched::Strategy::Random { num: 1, den: 8 },
+            crate::sched::Strategy::Random { num: 1, den: 2 },
+            crate::sched::Strategy::Pct { depth: 2 },
+            crate::sched::Strategy::Random { num: 1, den: 32 },
+        ];
+        for k in 0..8u64 {
+            if self.evals >= self.max_evals {
+                return None;
+            }
+            self.evals += 1;
+            let mut c = w.clone();
+            c.knobs.strategy = strategies[(k % 4) as usize].clone();
+            c.knobs.sched_seed = 0x5eed_0000 + k;
+            let e = execute(&c, None);
+            if e.viols.iter().any(|v| v.property == self.target.property && clause_class(&v.clause) == clause_class(&self.target.clause)) {
+                let tr = e.p2.trace.clone();
+                // the recorded trace must reproduce it as an explicit schedule
+                if self.fails(w, &tr) {
+                    return Some(tr);
+                }
+            }
+        }
+        None
+    }
+
     pub fn shrink(&mut self, mut w: World, mut s: Vec<Segment>) -> (World, Vec<Segment>) {
         loop {
             let before = (w.clone(), s.clone());
@@ -89,8 +125,9 @@ impl Shrinker {
                     let mut c = w.clone();
                     let end = (i + chunk).min(c.threads[t].len());
                     c.threads[t].drain(i..end);
-                    if self.fails(&c, s) {
+                    if let Some(ns) = self.fails_resched(&c, s) {
                         *w = c;
+                        *s = ns;
                     } else {
                         i += chunk;
                     }
